@@ -7,7 +7,7 @@ meta = json.load(open(os.path.join(d, "meta.json")))
 env = dict(os.environ, GOFLAGS="-mod=mod", GOPROXY="off", GOSUMDB="off", GOTOOLCHAIN="local")
 wt = "/tmp/mutv_%d" % os.getpid()
 def sh(cmd, cwd=wt):
-    p = subprocess.run(cmd, shell=True, cwd=cwd, env=env, stdout=subprocess.PIPE, stderr=subprocess.STDOUT, text=True)
+    p = subprocess.run(cmd, shell=True, cwd=cwd, env=env, stdout=subprocess.PIPE, stderr=subprocess.STDOUT, text=True, errors="replace")
     return p.returncode, p.stdout
 subprocess.check_call("git -C /repo worktree add --detach %s HEAD -q" % wt, shell=True)
 res = {}
